@@ -81,20 +81,77 @@ theorem acts_not_flagged (t : TestInfo) : ∀ (acts : List Act) (s : St) (x : By
     simpa [actEvs, msgsFrom_cons, msgsOf, step] using acts_not_flagged t as s x
   | .fail f l m :: as, s, x => by
     simpa [actEvs, msgsFrom_cons, msgsOf, step] using acts_not_flagged t as s x
+  | .failMsg m :: as, s, x => by
+    simpa [actEvs, msgsFrom_cons, msgsOf, step] using acts_not_flagged t as s x
+  | .failLoc f l :: as, s, x => by
+    simpa [actEvs, msgsFrom_cons, msgsOf, step] using acts_not_flagged t as s x
   | .failExit f l m :: _, s, x => by simp [actEvs, msgsFrom_cons, msgsFrom_nil, msgsOf]
+  | .postFail _ :: as, s, x => by simpa [actEvs] using acts_not_flagged t as s x
   | .checks _ :: as, s, x => by simpa [actEvs] using acts_not_flagged t as s x
   | .tick _ :: as, s, x => by simpa [actEvs] using acts_not_flagged t as s x
+
+theorem post_not_flagged (t : TestInfo) : ∀ (acts : List Act) (s : St) (x : Bytes),
+    Msg.testIgnored x ∉ msgsFrom s (postEvs t acts)
+  | [], s, x => by simp [postEvs, msgsFrom_nil]
+  | .postFail m :: as, s, x => by
+    simpa [postEvs, msgsFrom_cons, msgsOf, step] using post_not_flagged t as s x
+  | .print _ _ _ :: as, s, x => by simpa [postEvs] using post_not_flagged t as s x
+  | .fail _ _ _ :: as, s, x => by simpa [postEvs] using post_not_flagged t as s x
+  | .failExit _ _ _ :: as, s, x => by simpa [postEvs] using post_not_flagged t as s x
+  | .failMsg _ :: as, s, x => by simpa [postEvs] using post_not_flagged t as s x
+  | .failLoc _ _ :: as, s, x => by simpa [postEvs] using post_not_flagged t as s x
+  | .checks _ :: as, s, x => by simpa [postEvs] using post_not_flagged t as s x
+  | .tick _ :: as, s, x => by simpa [postEvs] using post_not_flagged t as s x
 
 /-- A test that runs is never flagged as ignored. -/
 theorem running_test_not_flagged (t : Script) (r : R) (s : St) (h : t.info.willRun = true) (x : Bytes) :
     Msg.testIgnored x ∉ msgsFrom s (testEvs t r) := by
   simp only [testEvs, h, if_true]
-  show Msg.testIgnored x ∉ msgsFrom s ([Ev.testStarted t.info] ++ (actEvs t.info t.acts ++ [Ev.testEnded _ _]))
-  rw [msgsFrom_append, msgsFrom_append]
+  show Msg.testIgnored x ∉ msgsFrom s ([Ev.testStarted t.info] ++ (actEvs t.info t.acts ++ (postEvs t.info t.acts ++ [Ev.testEnded _ _])))
+  rw [msgsFrom_append, msgsFrom_append, msgsFrom_append]
   simp only [List.mem_append, not_or]
-  refine ⟨by simp [msgsFrom_cons, msgsFrom_nil, msgsOf, h], acts_not_flagged _ _ _ _, ?_⟩
-  generalize stAfter _ (actEvs t.info t.acts) = s'
+  refine ⟨by simp [msgsFrom_cons, msgsFrom_nil, msgsOf, h], acts_not_flagged _ _ _ _, post_not_flagged _ _ _ _, ?_⟩
+  generalize stAfter (stAfter _ (actEvs t.info t.acts)) (postEvs t.info t.acts) = s'
   cases hc : s'.currTest <;> simp [msgsFrom_cons, msgsFrom_nil, msgsOf, hc]
+
+/-! ## which test a failure names, whoever constructs it -/
+
+/-- Obligation over the regenerated member-initialiser lists of src/CppUTest/TestFailure.cpp: every
+    `TestFailure` constructor — with file, line and message; with a message only (leak plugin, mock
+    failures, separate-process failures, plugins); with file and line only; and `FailFailure` — gives
+    the failure the NAME of the test (what `testStarted` announced), the test's own file and line as
+    test location, and the given location or, when none is given, the test's. -/
+theorem failure_names_its_test (t : TestInfo) (f : Bytes) (l : Nat) (m : Bytes) :
+    (locMsgFailure t f l m).testName = t.name ∧ (msgFailure t m).testName = t.name ∧
+    (locFailure t f l).testName = t.name ∧ (exitFailure t f l m).testName = t.name ∧
+    (msgFailure t m).file = t.file ∧ (msgFailure t m).line = t.line ∧
+    (locMsgFailure t f l m).file = f ∧ (locMsgFailure t f l m).line = l ∧
+    (locMsgFailure t f l m).testFile = t.file ∧ (locMsgFailure t f l m).testLine = t.line :=
+  ⟨locMsgFailure_testName t f l m, msgFailure_testName t m, locFailure_testName t f l, exitFailure_testName t f l m,
+   msgFailure_file t m, msgFailure_line t m, locMsgFailure_file t f l m, locMsgFailure_line t f l m,
+   locMsgFailure_testFile t f l m, locMsgFailure_testLine t f l m⟩
+
+/-- A failure without a location is located at the test itself, so it never gets the
+    `TEST failed (file:line): ` prefix; a located one gets it exactly when it lies in another file
+    or above the test's line. -/
+theorem location_prefix_cases (t : TestInfo) (f : Bytes) (l : Nat) (m : Bytes) :
+    failurePrefix (msgFailure t m) = [] ∧
+    (failurePrefix (locMsgFailure t f l m) = [] ↔ (f = t.file ∧ t.line ≤ l)) := by
+  constructor
+  · simp [failurePrefix, Failure.isOutsideTestFile, Failure.isInHelperFunction, msgFailure_file, msgFailure_line,
+      msgFailure_testFile, msgFailure_testLine]
+  · simp only [failurePrefix, Failure.isOutsideTestFile, Failure.isInHelperFunction, locMsgFailure_file,
+      locMsgFailure_line, locMsgFailure_testFile, locMsgFailure_testLine]
+    constructor
+    · intro h
+      split at h
+      · simp [lit] at h
+        exact ⟨h.1.symm, Nat.not_lt.mp (of_decide_eq_false h.2)⟩
+      · rename_i hc
+        simp only [Bool.or_eq_true, bne_iff_ne, ne_eq, not_or, Decidable.not_not] at hc
+        exact ⟨hc.1.symm, Nat.not_lt.mp (fun hlt => hc.2 (decide_eq_true hlt))⟩
+    · rintro ⟨rfl, h2⟩
+      simp [Nat.not_lt.mpr h2]
 
 /-! ## what is NOT proved -/
 
@@ -127,17 +184,18 @@ theorem empty_group_suite_not_finished : balanced (messages (runAll none emptyGr
 
 /-! ## non-vacuity -/
 
-/-- a registry with two groups, a passing test, a test failing twice (once in another file), an
+/-- a registry with two groups, a passing test, a test failing four times (in another file, without location, from a plugin, leaving the test), an
     ignored test, and names containing every special character -/
 def demo : List Script :=
   [ { info := { group := lit "g'1", name := lit "a|b", file := lit "it's[here].cpp", line := 10, willRun := true },
-      acts := [.tick 5, .fail (lit "other]file.cpp") 3 (lit "x\ny"), .failExit (lit "it's[here].cpp") 12 (lit "boom\r")] },
+      acts := [.tick 5, .fail (lit "other]file.cpp") 3 (lit "x\ny"), .failMsg (lit "no location"), .postFail (lit "from a plugin"),
+               .failExit (lit "it's[here].cpp") 12 (lit "boom\r")] },
     { info := { group := lit "g'1", name := lit "ign", file := lit "it's[here].cpp", line := 20, willRun := false }, acts := [] },
     { info := { group := lit "G[2]", name := lit "ok", file := lit "f.cpp", line := 1, willRun := true }, acts := [.checks 2] } ]
 
 example : ∀ t ∈ demo, t.info.group ≠ [] := by decide
 example : balanced (messages (runAll none demo)) = true := by decide
-example : (messages (runAll none demo)).length = 14 := by decide
+example : (messages (runAll none demo)).length = 16 := by decide
 example : decodeTC (printEscaped (lit "it's[here]|x\r\n")) = lit "it's[here]|x\r\n" := by decide
 example : printEscaped (lit "a'b") = lit "a|'b" := by decide
 /-- the independent stream parser of the specification reads the model's stream back into the very message list -/
